@@ -257,8 +257,8 @@ theorem bind_keys (s : State) (hc : Coherent s) (hcm : s.crashMode = false) (ns 
             · exact same hr'
             · rw [hb] at hr'; cases hr'; rfl
             · split at hr'
-              · rcases bindCommitX_cases (bindLoop ba.1 (keyOf pod) node { policy := policyOf pod, node := node, uid := pod.uid }
-                    (infos.filterMap id) (ba.2.2.filterMap id)).1 pod ns name uid node (ba.2.2.filterMap id) with e | e
+              · rcases bindFinish_good_state (bindLoop ba.1 (keyOf pod) node { policy := policyOf pod, node := node, uid := pod.uid }
+                    (infos.filterMap id) (ba.2.2.filterMap id)).1 pod ns name uid node (ba.2.2.filterMap id) ch.answer with e | e
                 · rw [e] at hr'
                   exact loop r' (by rw [← (api_quiet _).alloc]; exact hr')
                 · rw [e, (bindCommit_eff _ pod ns name uid node _).1] at hr'
@@ -292,6 +292,28 @@ theorem freed_or_rekeyed_step (s : State) (m : Move) (h : Inv10 s) (ha : assumed
       split
       · rfl
       · split <;> rfl
+    | markTerminating ns name fault =>
+      exfalso; apply same; dsimp only [step]
+      cases hp : Tbl.get s.pods (ns, name) with
+      | none => rfl
+      | some p =>
+        dsimp only
+        obtain ⟨_, pu0, _, pwf⟩ := h.base.podsWF (ns, name) p hp
+        split
+        · rfl
+        · split
+          · rfl
+          · split
+            · rfl
+            · split
+              · have c0 : Core (withFaults { s with pods := s.pods.set (ns, name) { p with terminating := true } } fault 0) :=
+                  h.core.of_eq rfl rfl rfl rfl rfl rfl
+                have hk : (keyOf { p with terminating := true }).pod ≠ "" := by
+                  show (keyOf p).pod ≠ ""
+                  rw [(keyOf_fields p pwf).2]; exact pwf.2.1
+                rw [hr]
+                exact (syncIPs_core { p with terminating := true } hk pu0 p.ips _ c0).2.2 ip r hr
+              · rfl
     | runPod ns name =>
       exfalso; apply same; dsimp only [step]
       split
